@@ -1,25 +1,243 @@
 /-
 C37 — storage migration copies every object faithfully.
-(first cut: the T1 obligations; the state-level theorems follow below once proved)
+
+Model: `Pithos.Model.Migrator` (mirrors internal/storage/migrator/migrator.go; the destination is
+written through `S3.step`, the shared storage model). Which attributes are carried is computed from
+the T1 table `Pithos.Gen.MigratorFlow`, regenerated from the Go source on every run.
+Helper lemmas: `Pithos.Lemmas.Migrator`.
 -/
-import Pithos.Model.Migrator
+import Pithos.Lemmas.Migrator
 
 namespace Pithos.C37
 open Pithos.S3 Pithos.Migrator
 
+/-! ### T1: which attributes flow from the source object into the destination's storage calls -/
+
 /-- Every attribute the property names except the storage class flows, in the current source, from
 the source object through `s3.PutObjectInput` and the uploader adapter into the destination's
-`PutObject` and multipart calls. -/
+`PutObject` and into its `CreateMultipartUpload`/`UploadPart` (objects above the 5 MiB part size). -/
 theorem migrate_fields_complete_partial :
     ∀ f ∈ observableFields, f ≠ .storageClass → f ∈ migratedFields genTable := by decide
 
 /-- Negation witness (current source): the storage class is not carried. -/
 theorem storage_class_not_migrated : Field.storageClass ∉ migratedFields genTable := by decide
 
-/-- The only gap of the current table. Becomes `= []` once fixes/C37-*.patch is committed. -/
+/-- The only gap of the current table. Becomes `= []` once fixes/C37-migrate-storage-class.patch is in
+(then `migrate_fields_complete : ∀ f ∈ observableFields, f ∈ migratedFields genTable` is this line). -/
 theorem current_gap : observableFields.filter (fun f => !flows genTable f) = [.storageClass] := by decide
 
-/-- `Expires` is the one attribute converted on the way (`parseExpires`, then `Format(http.TimeFormat)`). -/
+theorem current_carried : migratedFields genTable = [.content, .contentType, .cacheControl, .contentDisposition,
+    .contentEncoding, .contentLanguage, .expires, .websiteRedirect, .userMetadata, .tags] := by decide
+
+/-- `Expires` is the one attribute converted on the way (`parseExpires`, then `Format(http.TimeFormat)`):
+it survives exactly when it is a fixed point of that conversion. -/
 theorem expires_is_converted : (conversions genTable .expires).contains "parseExpires" = true := by decide
+
+/-- A complete table carries everything (what `flows` demands is satisfiable): the table the proposed
+patch produces. -/
+theorem patched_table_complete :
+    let t : FlowTable := { genTable with
+      inputAssignments := genTable.inputAssignments ++ [("StorageClass", ["srcObject.StorageClass"], ["types.StorageClass"])],
+      adapterFlows := genTable.adapterFlows ++ [("PutObject", "StorageClass", "opt:StorageClass"), ("CreateMultipartUpload", "StorageClass", "opt:StorageClass")] }
+    ∀ f ∈ observableFields, f ∈ migratedFields t := by decide
+
+/-! ### Migration over two storage states -/
+
+/-- Every destination bucket that held a current object before is exactly as it was. -/
+def Untouched (dst d : State) : Prop := ∀ n, hasCurrent dst n = true → findBucket d n = findBucket dst n
+
+theorem untouched_createMissing (q : Quirks) (dst : State) (names : List String) :
+    Untouched dst (createMissing q dst names) := by
+  intro n hn
+  rw [createMissing_find]
+  cases h : findBucket dst n with
+  | some bk => simp
+  | none => unfold hasCurrent at hn; rw [h] at hn; cases hn
+
+theorem migrateBuckets_untouched (q : Quirks) (P : Params) (dst : State) (bks : List Bucket) (d : State)
+    (hI : Untouched dst d) : Untouched dst (migrateBuckets q P d bks).dst := by
+  induction bks generalizing d with
+  | nil => exact hI
+  | cons bk rest ih =>
+    unfold migrateBuckets
+    by_cases hc : hasCurrent d bk.name = true
+    · simp only [hc, if_true]; exact hI
+    · simp only [hc, Bool.false_eq_true, if_false]
+      apply ih
+      intro n hn
+      have hne : n ≠ bk.name := by
+        intro h; subst h
+        exact hc ((hasCurrent_congr (hI _ hn)).trans hn)
+      rw [migrateBucket_other q P bk.name _ d n hne]
+      exact hI n hn
+
+theorem migrateBuckets_blocked (q : Quirks) (P : Params) (dst : State) (bks : List Bucket) (d : State)
+    (hI : Untouched dst d) (hex : ∃ bk ∈ bks, hasCurrent dst bk.name = true) :
+    (migrateBuckets q P d bks).ok = false := by
+  induction bks generalizing d with
+  | nil => obtain ⟨_, h, _⟩ := hex; cases h
+  | cons bk rest ih =>
+    unfold migrateBuckets
+    by_cases hc : hasCurrent d bk.name = true
+    · simp only [hc, if_true]
+    · simp only [hc, Bool.false_eq_true, if_false]
+      have hI' : Untouched dst (migrateBucket q P d bk.name (currentRows bk)) := by
+        intro n hn
+        have hne : n ≠ bk.name := by
+          intro h; subst h
+          exact hc ((hasCurrent_congr (hI _ hn)).trans hn)
+        rw [migrateBucket_other q P bk.name _ d n hne]
+        exact hI n hn
+      apply ih _ hI'
+      obtain ⟨b, hb, hcur⟩ := hex
+      rcases List.mem_cons.1 hb with rfl | hb
+      · exact absurd ((hasCurrent_congr (hI _ hcur)).trans hcur) hc
+      · exact ⟨b, hb, hcur⟩
+
+/-- **never_overwrites.** Whatever the source and the destination are and however the run ends, every
+object that was current in the destination before the migration is still there, unchanged. -/
+theorem never_overwrites (q : Quirks) (P : Params) (src dst : State) (b k : String) (v : View)
+    (hv : cur dst b k = some v) : cur (migrate q P src dst).dst b k = some v := by
+  unfold migrate
+  have h0 := untouched_createMissing q dst (src.buckets.map (·.name))
+  have hu := migrateBuckets_untouched q P dst src.buckets _ h0 b (hasCurrent_of_cur hv)
+  rw [cur_congr hu k]; exact hv
+
+/-- **nonempty_dst_fails_unchanged.** If the destination has a bucket of a source bucket's name that
+lists a current object, the migration fails, and nothing that was in the destination is overwritten
+(for every source state, every destination state, every set of carried attributes). -/
+theorem nonempty_dst_fails_unchanged (q : Quirks) (P : Params) (src dst : State)
+    (hex : ∃ bk ∈ src.buckets, hasCurrent dst bk.name = true) :
+    (migrate q P src dst).ok = false ∧
+    ∀ b k v, cur dst b k = some v → cur (migrate q P src dst).dst b k = some v := by
+  refine ⟨?_, fun b k v hv => never_overwrites q P src dst b k v hv⟩
+  unfold migrate
+  exact migrateBuckets_blocked q P dst _ _ (untouched_createMissing q dst _) hex
+
+/-- Well-formed source: distinct bucket names, at most one latest row per key (what every reachable
+storage state satisfies; `ListBuckets`/`ListObjects` never show duplicates). -/
+def SrcWF (src : State) : Prop :=
+  (src.buckets.map (·.name)).Nodup ∧ ∀ bk ∈ src.buckets, LatestUnique bk
+
+/-- **migrate_into_empty** (any set of carried attributes `P`). Migrating into a destination without
+buckets succeeds, and for every source bucket and every key the destination's current object is the
+source's current object as `P` carries it — in particular absent exactly when the source has none. -/
+theorem migrate_into_empty (q : Quirks) (P : Params) (src dst : State) (hdst : dst.buckets = [])
+    (hwf : SrcWF src) :
+    (migrate q P src dst).ok = true ∧
+    ∀ bk ∈ src.buckets, ∀ k, cur (migrate q P src dst).dst bk.name k = (cur src bk.name k).map (carry P) := by
+  have hfresh : ∀ bk ∈ src.buckets,
+      findBucket (createMissing q dst (src.buckets.map (·.name))) bk.name = some { name := bk.name } := by
+    intro bk hbk
+    rw [createMissing_find]
+    have : findBucket dst bk.name = none := by unfold findBucket; rw [hdst]; rfl
+    rw [this]
+    have hm : bk.name ∈ src.buckets.map (·.name) := List.mem_map_of_mem hbk
+    simp [hm]
+  have hkeys : ∀ bk ∈ src.buckets, ((currentRows bk).map (·.key)).Nodup :=
+    fun bk hbk => currentKeys_nodup bk.rows (hwf.2 bk hbk)
+  obtain ⟨hok, hspec⟩ := migrateBuckets_spec q P src.buckets _ hwf.1 hkeys hfresh
+  unfold migrate
+  refine ⟨hok, ?_⟩
+  intro bk hbk k
+  obtain ⟨bk', hb', hs', hrows'⟩ := hspec bk hbk
+  rw [cur_simple _ bk.name k bk' hb' hs', hrows',
+    cur_source src bk k (findBucket_of_mem src bk hwf.1 hbk) (hwf.2 bk hbk)]
+  exact find_carry (carry P) (currentRows bk) k
+
+theorem carry_ideal (v : View) : carry idealParams v = v := by
+  have hmd : carryMd idealParams v.md = v.md := by
+    apply carryMd_id
+    · intro p _
+      have := fieldOfMdKey_cases p.1
+      simp only [List.mem_cons, List.mem_nil_iff, or_false] at this
+      rcases this with h | h | h | h | h | h | h <;> rw [h] <;> decide
+    · intro p _ _; rfl
+  obtain ⟨body, ct, md, tags, cls⟩ := v
+  simp only at hmd
+  unfold carry
+  simp only [hmd]
+  simp [idealParams, observableFields]
+
+/-- **migrate_empty_dst_equiv.** With every attribute carried and none converted (the table of the
+patched migrator on objects whose `Expires` is an RFC 1123 date), migrating into an empty destination
+reproduces, bucket by bucket and key by key, exactly the source's current objects: content, content
+type, system and user metadata, tags and storage class. -/
+theorem migrate_empty_dst_equiv (q : Quirks) (src dst : State) (hdst : dst.buckets = []) (hwf : SrcWF src) :
+    (migrate q idealParams src dst).ok = true ∧
+    ∀ bk ∈ src.buckets, ∀ k, cur (migrate q idealParams src dst).dst bk.name k = cur src bk.name k := by
+  obtain ⟨hok, h⟩ := migrate_into_empty q idealParams src dst hdst hwf
+  refine ⟨hok, fun bk hbk k => ?_⟩
+  rw [h bk hbk k]
+  cases cur src bk.name k with
+  | none => rfl
+  | some v => simp [carry_ideal]
+
+/-- **migrate_empty_dst_equiv_partial** (the migrator as it is: the attributes of `genTable`). Objects
+without a storage class and with an `Expires` value that the HTTP-date round trip `ex` leaves alone
+(or none) arrive identical. -/
+theorem migrate_empty_dst_equiv_partial (q : Quirks) (ex : String → Option String) (src dst : State)
+    (hdst : dst.buckets = []) (hwf : SrcWF src) (bk : Bucket) (hbk : bk ∈ src.buckets) (k : String) (v : View)
+    (hv : cur src bk.name k = some v) (hcls : v.cls = none)
+    (hex : ∀ p ∈ v.md, p.1 = "!ex" → ex p.2 = some p.2) :
+    cur (migrate q (codeParams genTable ex) src dst).dst bk.name k = some v := by
+  obtain ⟨_, h⟩ := migrate_into_empty q (codeParams genTable ex) src dst hdst hwf
+  rw [h bk hbk k, hv]
+  simp only [Option.map_some, Option.some.injEq]
+  have hc : (codeParams genTable ex).carried = [.content, .contentType, .cacheControl, .contentDisposition, .contentEncoding,
+      .contentLanguage, .expires, .websiteRedirect, .userMetadata, .tags] := current_carried
+  have hexf : (codeParams genTable ex).ex = ex := by
+    unfold codeParams
+    simp only [expires_is_converted, if_true]
+  obtain ⟨body, ct, md, tags, cls⟩ := v
+  simp only at hcls hex
+  subst hcls
+  have hmd : carryMd (codeParams genTable ex) md = md := by
+    apply carryMd_id
+    · intro p _
+      rw [hc]
+      have := fieldOfMdKey_cases p.1
+      simp only [List.mem_cons, List.mem_nil_iff, or_false] at this
+      rcases this with h | h | h | h | h | h | h <;> rw [h] <;> decide
+    · intro p hp hk; rw [hexf]; exact hex p hp hk
+  unfold carry
+  simp only [hmd, hc]
+  simp
+
+def witnessRow : Row :=
+  { rowId := 0, key := "k", vid := none, latest := true, created := 0, updated := 0, wrote := 0, parts := [[1]],
+    cls := some "GLACIER" }
+def witnessSrc : State := { buckets := [{ name := "b", rows := [witnessRow] }] }
+
+/-- Negation witness for the migrator as it is: a one-object source whose object is in GLACIER arrives
+without its storage class (this is the history replayed on the implementation, harness case 0). -/
+theorem asIs_loses_storage_class :
+    (migrate Quirks.code (codeParams genTable some) witnessSrc {}).ok = true ∧
+    (cur witnessSrc "b" "k").map (·.cls) = some (some "GLACIER") ∧
+    (cur (migrate Quirks.code (codeParams genTable some) witnessSrc {}).dst "b" "k").map (·.cls) = some none := by
+  decide
+
+def exRows : List Row :=
+  [{ rowId := 0, key := "k", vid := some 0, latest := false, created := 0, updated := 0, wrote := 0, parts := [[1]] },
+   { rowId := 1, key := "k", vid := some 1, latest := true, created := 1, updated := 1, wrote := 1, parts := [[2], [3]],
+     ct := some "text/plain", md := [("!cc", "no-cache"), ("color", "x")], tags := [("t", "v")], cls := some "GLACIER" },
+   { rowId := 2, key := "gone", vid := some 2, dm := true, latest := true, created := 2, updated := 2, wrote := 2 }]
+def exSrc : State := { buckets := [{ name := "a", ver := .enabled, rows := exRows }, { name := "b" }] }
+
+/-- Non-vacuity: a two-bucket source with a delete marker, a noncurrent version and a fully attributed
+object satisfies `SrcWF`; its migration into the empty state reproduces it. -/
+example :
+    SrcWF exSrc ∧ (migrate Quirks.code idealParams exSrc {}).ok = true ∧
+      cur (migrate Quirks.code idealParams exSrc {}).dst "a" "k" = cur exSrc "a" "k" ∧
+      (cur exSrc "a" "k").isSome = true ∧
+      cur (migrate Quirks.code idealParams exSrc {}).dst "a" "gone" = none := by
+  refine ⟨⟨by decide, ?_⟩, by decide, by decide, by decide, by decide⟩
+  intro bk hbk
+  simp only [exSrc, List.mem_cons, List.mem_nil_iff, or_false] at hbk
+  rcases hbk with rfl | rfl <;> unfold LatestUnique <;> decide
+
+/-- Non-vacuity of `nonempty_dst_fails_unchanged`: a destination bucket of a source bucket's name with
+one object. -/
+example : ∃ bk ∈ exSrc.buckets, hasCurrent witnessSrc bk.name = true := ⟨{ name := "b" }, by decide, by decide⟩
 
 end Pithos.C37
